@@ -15,16 +15,18 @@ def run(ctx):
         if not os.environ.get("VERIF_SKIP_MC"):  # developer switch used by the mutant self-tests
             r0 = ctx.model_check("trie", "MC_Hexary", "MC_Hexary_cov.cfg", coverage=True, timeout=900)
             ctx.check_coverage(r0, ["Add", "SetLen", "Finalize", "Reopen", "Check", "SyncAll"])
-            ctx.model_check("trie", "MC_Hexary", "MC_Hexary.cfg", constants={"MaxLen": ctx.pick(8, 18)}, timeout=ctx.pick(900, 3000))
-            ctx.model_check("trie", "MC_Hexary", "MC_Hexary_a3.cfg", constants={"MaxLen": ctx.pick(8, 14)}, timeout=ctx.pick(900, 3000))
-            ctx.model_check("trie", "MC_Hexary", "MC_Hexary_v2.cfg", constants={"MaxOps": ctx.pick(5, 8)}, timeout=ctx.pick(900, 3000))
+            ctx.model_check("trie", "MC_Hexary", "MC_Hexary.cfg", constants={"MaxLen": ctx.pick(12, 18)}, timeout=ctx.pick(900, 3000))
+            ctx.model_check("trie", "MC_Hexary", "MC_Hexary_a3.cfg", constants={"MaxLen": ctx.pick(10, 14)}, timeout=ctx.pick(900, 3000))
+            ctx.model_check("trie", "MC_Hexary", "MC_Hexary_v2.cfg", constants={"MaxOps": ctx.pick(6, 8)}, timeout=ctx.pick(900, 3000))
             ctx.exhaustive = False  # TLC stage exhaustive; the replayed behaviours are random walks
         # behaviours with the real arity 16: lengths crossing 16 and 256 (thorough: 4096), rewinds around the powers
-        consts = {"MaxOps": wl, "Depth": wl}
-        if not ctx.quick():
-            consts.update({"MaxLen": 9000, "AddSizes": "{1, 2, 15, 16, 17, 239, 256, 3839, 4096}"})
-        allb = ctx.behaviours("trie", "Gen_Hexary", "Gen_Hexary.cfg", constants=consts,
-                              simulate="num=%d" % ctx.pick(50, 300), depth=wl + 1, seed=ctx.seed, timeout=ctx.pick(900, 3000))
+        allb = ctx.behaviours("trie", "Gen_Hexary", "Gen_Hexary.cfg", constants={"MaxOps": wl, "Depth": wl},
+                              simulate="num=%d" % ctx.pick(100, 250), depth=wl + 1, seed=ctx.seed, timeout=ctx.pick(900, 3000),
+                              javaopts="-Xss512m")
+        if not ctx.quick():  # long accumulators: crossing 4096 = 16^3 (each TLC step evaluates thousands of adds)
+            allb += ctx.behaviours("trie", "Gen_Hexary", "Gen_Hexary.cfg", simulate="num=25", depth=9, seed=ctx.seed + 5,
+                                   constants={"MaxOps": 8, "Depth": 8, "MaxLen": 9000, "AddSizes": "{1, 17, 255, 3839, 4096}"},
+                                   timeout=1500, javaopts="-Xss512m")
         for b in allb[:3]:
             ctx.sample([{k: s.get(k) for k in ("op", "v", "n", "l", "res", "len")} for s in b])
     inp = ctx.path("in", "behaviours.ndjson")
